@@ -38,6 +38,7 @@ pub enum Plan {
     SoftStop(super::c10_softstop::SoftStopPlan),
     Cluster(super::c10_cluster::ClusterPlanC10),
     Crash(super::c10_crash::CrashPlan),
+    PlainStop(super::c10_plainstop::PlainStopPlan),
 }
 
 fn gen_addr(rng: &mut Prng, style: u64, i: usize) -> SocketAddr {
@@ -174,6 +175,8 @@ impl Property for C10 {
             0 | 1 => return serde_json::to_value(Plan::Cluster(super::c10_cluster::generate(seed, tier))).unwrap(),
             // one plan in sixteen: the worker crashes and the real main process restarts one (c10_crash.rs)
             2 => return serde_json::to_value(Plan::Crash(super::c10_crash::generate(seed, tier))).unwrap(),
+            // one plan in sixteen: plain SoftStop with requests in flight and connection attempts during the drain (c10_plainstop.rs)
+            3 => return serde_json::to_value(Plan::PlainStop(super::c10_plainstop::generate(seed, tier))).unwrap(),
             _ => {}
         }
         if f == 3 { return serde_json::to_value(Plan::SoftStop(super::c10_softstop::generate(seed, tier))).unwrap(); }
@@ -186,6 +189,7 @@ impl Property for C10 {
             Ok(Plan::SoftStop(p)) => super::c10_softstop::run(&p, false).0,
             Ok(Plan::Cluster(p)) => super::c10_cluster::run(&p, false).0,
             Ok(Plan::Crash(p)) => super::c10_crash::run(&p, false).0,
+            Ok(Plan::PlainStop(p)) => super::c10_plainstop::run(&p, false).0,
             Err(e) => RunReport { harness_error: Some(format!("bad plan: {e}")), ..Default::default() },
         }
     }
@@ -210,6 +214,7 @@ impl Property for C10 {
             Ok(Plan::SoftStop(p)) => super::c10_softstop::shrink(&p).into_iter().map(|q| serde_json::to_value(Plan::SoftStop(q)).unwrap()).collect(),
             Ok(Plan::Cluster(p)) => super::c10_cluster::shrink(&p).into_iter().map(|q| serde_json::to_value(Plan::Cluster(q)).unwrap()).collect(),
             Ok(Plan::Crash(p)) => super::c10_crash::shrink(&p).into_iter().map(|q| serde_json::to_value(Plan::Crash(q)).unwrap()).collect(),
+            Ok(Plan::PlainStop(p)) => super::c10_plainstop::shrink(&p).into_iter().map(|q| serde_json::to_value(Plan::PlainStop(q)).unwrap()).collect(),
             _ => vec![],
         }
     }
@@ -219,6 +224,7 @@ impl Property for C10 {
             Ok(Plan::SoftStop(p)) => super::c10_softstop::run(&p, true).1,
             Ok(Plan::Cluster(p)) => super::c10_cluster::run(&p, true).1,
             Ok(Plan::Crash(p)) => super::c10_crash::run(&p, true).1,
+            Ok(Plan::PlainStop(p)) => super::c10_plainstop::run(&p, true).1,
             Ok(Plan::Codec(p)) => serde_json::to_string_pretty(&run_codec(&p)).unwrap(),
             Err(e) => e.to_string(),
         }
@@ -226,11 +232,11 @@ impl Property for C10 {
     fn descr(&self) -> Descr {
         Descr {
             level: "exploration",
-            rule: "four plan families: (cluster) the real main process and real workers in one simulation, UpgradeWorker sent by a scripted CLI client at a seeded moment relative to client traffic (c10_cluster.rs); (softstop) mixed-protocol scenario (HTTP/2 client over real TLS, sometimes an H1 client, H1 backend, trigger-free C14 plans) with SoftStop sent at a seeded moment inside the transfers and h2_graceful_shutdown_deadline_seconds unset/0/30/120: every request the client managed to send completes byte-exactly unless explicitly refused as retryable, SoftStop is answered OK once and the worker returns, after which the peers drain their socket buffers; (codec) listener sets of 0..200 addresses of every textual shape (shortest/longest IPv4, IPv6, mixes over http/tls/tcp/udp) sent with the real ScmSocket::send_listeners and read back with the real receive_listeners, each returned fd checked against its address through getsockname, plus an fd-table audit; (handover) two real workers in one simulation with a scripted master replaying the upgrade sequence at a PRNG-chosen moment relative to client activity; non-trivial = at least one listener / one request; distinct = trace hashes",
+            rule: "six plan families: (crash_restart) a real worker crashed by the simulator under traffic, the real main process restarts one from the state file (c10_crash.rs); (plainstop) plain SoftStop with requests in flight and connection attempts during the drain (c10_plainstop.rs); (cluster) the real main process and real workers in one simulation, UpgradeWorker sent by a scripted CLI client at a seeded moment relative to client traffic (c10_cluster.rs); (softstop) mixed-protocol scenario (HTTP/2 client over real TLS, sometimes an H1 client, H1 backend, trigger-free C14 plans) with SoftStop sent at a seeded moment inside the transfers and h2_graceful_shutdown_deadline_seconds unset/0/30/120: every request the client managed to send completes byte-exactly unless explicitly refused as retryable, SoftStop is answered OK once and the worker returns, after which the peers drain their socket buffers; (codec) listener sets of 0..200 addresses of every textual shape (shortest/longest IPv4, IPv6, mixes over http/tls/tcp/udp) sent with the real ScmSocket::send_listeners and read back with the real receive_listeners, each returned fd checked against its address through getsockname, plus an fd-table audit; (handover) two real workers in one simulation with a scripted master replaying the upgrade sequence at a PRNG-chosen moment relative to client activity; non-trivial = at least one listener / one request; distinct = trace hashes",
             assumptions: vec!["AF_UNIX listening sockets with simulated addresses stand in for TCP listeners", "release semantics"],
             real: vec!["cluster family: sozu::command::server::CommandHub::run, launch_new_worker / fork_main_into_worker (parent branch), bin/src/command/upgrade.rs, sozu::worker::begin_worker_process, two Server::run loops", "sozu_command_lib::scm_socket (SCM_RIGHTS over a real unix socket pair)", "two sozu_lib::server::Server::run loops (handover family)", "one Server::run with rustls on both sides (softstop family)"],
             stub: vec!["master process in the handover/softstop families (scripted: ReturnListenSockets -> receive -> boot successor -> SoftStop + activate)", "fork/exec (cluster family: a thread stands in for the exec'd child and receives duplicates of the inherited descriptors)", "CLI client", "clients", "backends", "clock", "entropy"],
-            not_covered: vec!["old worker crashing mid-hand-over", "main-process upgrade (fork_main_into_new_main)", "HTTPS/TCP/UDP listeners in the cluster family", "SO_REUSEPORT balancing"],
+            not_covered: vec!["old worker crashing in the middle of a hand-over (crashes are injected outside hand-overs)", "main-process upgrade (fork_main_into_new_main)", "HTTPS/TCP/UDP listeners in the cluster family", "SO_REUSEPORT balancing"],
         }
     }
 }
